@@ -385,6 +385,7 @@ class World:
         self.memory_loggers: dict[str, Any] = {}
         self.gc_on_exit = False
         self.late_loggers: list[Any] = []
+        self.off_loggers: list[Any] = []
         self.exit_snapshot: dict[str, dict[str, bool]] = {}  # block -> {task spawned into it: done() at the instant the block was left}
         self.capture = LogCapture()
         self.uid = 10_000
@@ -440,6 +441,10 @@ class World:
 
                 return self.memory_loggers.setdefault(value, MemoryLogger(value))
             lg = logging.getLogger(value)
+            if ".off" in value:
+                # this logger is switched off (`Logger.disabled`, what a logging re-configuration does to existing loggers) whenever a
+                # scope is being CREATED below it, and on again right after: which logger a scope uses is decided by the nesting
+                self.off_loggers.append(lg)
             if ".late" in value:
                 # debug output of this logger is switched on only after the scope that uses it was created
                 lg.setLevel(logging.WARNING)
@@ -667,6 +672,25 @@ async def run_steps(W: World, steps: list[dict[str, Any]], rng: random.Random | 
                 continue
             if step["via"] == "ctx":
                 W.tasks[name] = ctx.spawn(child)
+            elif step["via"] == "ctx-callback":
+                # the spawn is issued from a loop callback registered here (a done-callback chaining follow-up work, loop.call_soon):
+                # callbacks run in a copy of the registering context, outside any task - the task still belongs to the current scope
+                slot: dict[str, Any] = {}
+
+                def issue() -> None:
+                    try:
+                        slot["task"] = ctx.spawn(child)
+                    except BaseException as exc:  # noqa: BLE001
+                        slot["error"] = exc
+
+                asyncio.get_running_loop().call_soon(issue)
+                for _ in range(3):
+                    if slot:
+                        break
+                    await asyncio.sleep(0)
+                if "error" in slot:
+                    raise slot["error"]
+                W.tasks[name] = slot["task"]
             else:
                 W.tasks[name] = asyncio.get_running_loop().create_task(child())
             W.task_owner[name] = step.get("owner")
@@ -884,14 +908,28 @@ async def run_block(W: World, block: dict[str, Any], rng: random.Random | None) 
             W.disposables[name] = ds
             if any(spec.get("enter_block") for spec in block["disposables"]):
                 W.pre_enter_view[name] = (_outcome(lambda: ctx.state(family.R1)), _outcome(lambda: ctx.state(family.D2)))
-            kw["disposables"] = ds
+            # the collection handed to `disposables=` is any Iterable[Disposable]: a list, a tuple, a one-shot iterator, a Disposables object
+            container = block.get("disposables_container", "list")
+            if container == "Disposables":
+                from haiway import Disposables
+
+                kw["disposables"] = Disposables(*ds)
+            else:
+                kw["disposables"] = {"list": lambda: ds, "tuple": lambda: tuple(ds), "generator": lambda: (d for d in ds), "iter": lambda: iter(ds),
+                                     "filter": lambda: filter(lambda d: True, ds), "map": lambda: map(lambda d: d, ds), "dict-keys": lambda: {d: None for d in ds}.keys()}[container]()
         if block.get("completion"):
             kw["completion"] = W.completion(name, block["completion"])
         for opt in ("logger", "trace_id"):
             if block.get(opt) is not None:
                 kw[opt] = W.resolve_option(opt, block[opt])
         W.event("construct", name)
-        cm = W.prepared.pop(name) if block.get("prepared") else ctx.scope(block.get("scope_name", name), *states, **kw)
+        for lg in W.off_loggers:
+            lg.disabled = True
+        try:
+            cm = W.prepared.pop(name) if block.get("prepared") else ctx.scope(block.get("scope_name", name), *states, **kw)
+        finally:
+            for lg in W.off_loggers:
+                lg.disabled = False
         entered = False
         try:
             await cm.__aenter__()
@@ -923,10 +961,16 @@ async def run_block(W: World, block: dict[str, Any], rng: random.Random | None) 
                 if block.get(opt) is not None:
                     kw2[opt] = W.resolve_option(opt, block[opt])
             W.event("construct", name)
-        if block.get("prepared"):
-            cm2 = W.prepared.pop(name)
-        else:
-            cm2 = ctx.scope(block.get("scope_name", name), *states, **kw2) if kind == "sscope" else ctx.updated(*states)
+        for lg in W.off_loggers:
+            lg.disabled = True
+        try:
+            if block.get("prepared"):
+                cm2 = W.prepared.pop(name)
+            else:
+                cm2 = ctx.scope(block.get("scope_name", name), *states, **kw2) if kind == "sscope" else ctx.updated(*states)
+        finally:
+            for lg in W.off_loggers:
+                lg.disabled = False
         try:
             with cm2:
                 try:
